@@ -160,7 +160,7 @@ fn eval_substr<'a>(args: &[Option<Value<'a>>]) -> Option<Value<'a>> {
     let start = if pos > 0 {
         (pos - 1) as usize
     } else if pos < 0 {
-        chars.len().saturating_sub((-pos) as usize)
+        chars.len().saturating_sub(pos.unsigned_abs() as usize)
     } else {
         return Some(Value::Text(Cow::Borrowed("")));
     };
@@ -188,7 +188,7 @@ fn eval_substring_index<'a>(args: &[Option<Value<'a>>]) -> Option<Value<'a>> {
         let take = (count as usize).min(parts.len());
         parts[..take].join(delim.as_ref())
     } else if count < 0 {
-        let skip = parts.len().saturating_sub((-count) as usize);
+        let skip = parts.len().saturating_sub(count.unsigned_abs() as usize);
         parts[skip..].join(delim.as_ref())
     } else {
         String::new()
